@@ -34,6 +34,9 @@ def gen_cases(seed, tier, n):
     for i in range(n):
         c = tracegen.gen_case(seed, i, tracegen.PROFILES[profs[i % len(profs)]])
         c["params"] = {"files": i % 3 == 0}
+        if i % 5 == 3:
+            import random as _r
+            tracegen.lookalike_launch_names(c, _r.Random(seed * 31337 + i))     # linked runtime calls whose names only contain a launch name
         if i % 3 == 1:
             tracegen.relabel_ranks(c)      # a subset of a job: rank ids are not 0..n-1, and not listed in order
         if i % 10 == 7:
